@@ -1,5 +1,116 @@
 import Driver.Common
-/-! Driver for C07 (stub: not built yet). -/
-def main (_args : List String) : IO UInt32 := do
-  IO.eprintln "C07: driver not implemented"
-  return 2
+import CoapVerif.Model.Framing
+import CoapVerif.Spec.Framing
+/-!
+Driver for C07.  Lines: `cfg <max>` (new connection), `chunk <hex>` (one read).
+`model`: prints per chunk what the model delivers: `ord k {code tok paylen payfnv}* sig j {code}* closed b`.
+`judge`: lines are `chunk <hex> | <observed line>`; keeps the cumulative stream and observations and applies
+`Spec.Framing.judgeStep` to ordinary messages (dropTailOK) and to signalling messages (never dropped).
+-/
+namespace Driver.C07
+open CoapVerif
+
+def fnvBytes (bs : List UInt8) : UInt64 := bs.foldl (fun h b => fnvMix h b.toUInt64) fnvInit
+
+def summ (code : Nat) (tok pay : List UInt8) : String :=
+  s!"{code} {toHex tok} {pay.length} {hex64 (fnvBytes pay)}"
+
+structure MState where
+  max : Nat := 0
+  st : Model.Framing.St := Model.Framing.init
+
+def fmtModel (newMsgs : List Model.Framing.Msg) (closed : Bool) : String :=
+  let isSig := fun (m : Model.Framing.Msg) => Generated.TcpFraming.signalCodes.contains m.code
+  let ord := newMsgs.filter (fun m => !isSig m)
+  let sig := newMsgs.filter isSig
+  let o := String.join (ord.map (fun m => " " ++ summ m.code m.token m.payload))
+  let s := String.join (sig.map (fun m => s!" {m.code}"))
+  s!"ord {ord.length}{o} sig {sig.length}{s} closed {if closed then 1 else 0}"
+
+def modelStep (s : MState) (line : String) : MState × String :=
+  match words line with
+  | "cfg" :: mx :: _ =>
+    match mx.toNat? with
+    | some mx => ({ max := mx, st := Model.Framing.init }, "ok")
+    | none => (s, "bad-op")
+  | ["chunk", hx] =>
+    match parseHex? hx with
+    | some bs =>
+      let st' := Model.Framing.feed s.max s.st bs
+      let newMsgs := st'.out.drop s.st.out.length
+      ({ s with st := st' }, fmtModel newMsgs st'.closed)
+    | none => (s, "bad-op")
+  | _ => (s, "bad-op")
+
+structure JState where
+  max : Nat := 0
+  stream : List UInt8 := []
+  ord : List String := []
+  sig : List String := []
+
+/-- parse `ord k a b c d … sig j x … closed b` -/
+def parseObs (ws : List String) : Option (List String × List String × Bool) := do
+  match ws with
+  | "ord" :: k :: rest =>
+    let k ← k.toNat?
+    let ordW := rest.take (4 * k)
+    if ordW.length ≠ 4 * k then none
+    let ords := (List.range k).map (fun i => " ".intercalate ((ordW.drop (4 * i)).take 4))
+    match rest.drop (4 * k) with
+    | "sig" :: j :: rest2 =>
+      let j ← j.toNat?
+      let sigs := rest2.take j
+      if sigs.length ≠ j then none
+      match rest2.drop j with
+      | ["closed", b] => some (ords, sigs, b == "1")
+      | _ => none
+    | _ => none
+  | _ => none
+
+def isSigCode (c : Nat) : Bool := 225 ≤ c ∧ c ≤ 229   -- RFC 8323 §5: 7.01 … 7.05
+
+def judgeLine (s : JState) (line : String) : JState × String :=
+  match line.splitOn " | " with
+  | [inp] =>
+    match words inp with
+    | "cfg" :: mx :: _ =>
+      match mx.toNat? with
+      | some mx => ({ max := mx }, "ok")
+      | none => (s, "bad-op")
+    | _ => (s, "bad-op")
+  | [inp, obs] =>
+    match words inp with
+    | ["chunk", hx] =>
+      match parseHex? hx, parseObs (words obs) with
+      | some bs, some (ords, sigs, closed) =>
+        let s' := { s with stream := s.stream ++ bs, ord := s.ord ++ ords, sig := s.sig ++ sigs }
+        let view := fun (m : Spec.Framing.Msg) => summ m.code m.token m.payload
+        let r1 := Spec.Framing.judgeStep s'.max s'.stream (fun m => !isSigCode m.code) view s'.ord closed true
+        let r2 := Spec.Framing.judgeStep s'.max s'.stream (fun m => isSigCode m.code) (fun m => toString m.code) s'.sig closed false
+        match r1, r2 with
+        | none, none => (s', "ok")
+        | some e, _ => (s', s!"violates ordinary: {e}")
+        | none, some e => (s', s!"violates signals: {e}")
+      | _, _ => (s, "violates unparsable-observation")
+    | _ => (s, "bad-op")
+  | _ => (s, "bad-op")
+
+end Driver.C07
+
+def main (args : List String) : IO UInt32 := do
+  let stdin ← IO.getStdin
+  let stdout ← IO.getStdout
+  match args with
+  | ["model"] =>
+    let _ ← Driver.foldLines stdin ({} : Driver.C07.MState) fun s l => do
+      let (s', o) := Driver.C07.modelStep s l
+      stdout.putStrLn o
+      pure s'
+  | ["judge"] =>
+    let _ ← Driver.foldLines stdin ({} : Driver.C07.JState) fun s l => do
+      let (s', o) := Driver.C07.judgeLine s l
+      stdout.putStrLn o
+      pure s'
+  | _ => IO.eprintln "usage: drv_c07 model|judge"; return 2
+  stdout.flush
+  return 0
